@@ -729,6 +729,39 @@ theorem one_template_per_repeat (root : Str) (its : List Item) (p : Str → Bool
     tmplCount p (instanceOf root its) = repCountL p its := by
   simp [instanceOf, tmplCount, templates_top]
 
+/-! ### rows marked disabled produce nothing; the count companion exists iff the cell is not a bare reference -/
+
+/-- **A row marked disabled is skipped, whatever kind of row it is** (question, select, audit, begin / end, a row
+    that would otherwise be rejected): it classifies as `skip` — so by `skip_rows_vanish` it leaves no trace in the
+    tree — and it is no audit row of the meta block.  (What seeded change C04-8 broke for audit rows.) -/
+theorem disabled_row_vanishes (lists : List Str) (n : Nat) (r : Cells) (v : Str)
+    (h : get r "disabled" = some v) (hv : yesNoTrue v = true) :
+    classify lists n r = .row .skip ∧ isAuditRow r = false := by
+  constructor
+  · unfold classify; simp only [h, hv, if_true]
+  · unfold isAuditRow; simp [h, hv]
+
+/-- … and the attribute model emits no control for it -/
+theorem disabled_row_no_controls (lists : List Str) (n : Nat) (r0 : Cells) (cs : List Controls.Ctl)
+    (hd : ∃ v, get (prep r0).1 "disabled" = some v ∧ yesNoTrue v = true)
+    (h : rowControls lists n r0 = .ok cs) : cs = [] := by
+  obtain ⟨v, h1, h2⟩ := hd
+  obtain ⟨k, ps, hk, _, _, hout⟩ := rowControls_out lists n r0 cs h
+  rw [(disabled_row_vanishes lists n _ v h1 h2).1] at hk
+  injection hk with hk; subst hk
+  rw [hout]; rfl
+
+/-- **The generated `<name>_count` node exists exactly when the count cell is not a bare reference**
+    (constant, expression, reference followed by an operator, function call …) — what seeded change C04-9 broke. -/
+theorem count_helper_iff (name : Str) (r : Cells) :
+    (countHelper name r).isSome = (match get r "control::jr:count" with
+      | some e => !isPyxformRef e
+      | none => false) := by
+  unfold countHelper
+  cases hg : get r "control::jr:count" with
+  | none => rfl
+  | some e => simp only []; split <;> simp_all
+
 /-! ### Non-vacuity -/
 
 def exEntryText : List (String × String × String) := [("control", "tag", "input"), ("bind", "type", "string")]
@@ -807,5 +840,15 @@ example : (match allControlsN [k!"yn"] (TableList.sheetRows exTL), TableList.for
         o.body.map xpathStr == [k!"/data/t", k!"/data/t/generated_table_list_label_2",
           k!"/data/t/reserved_name_for_field_list_labels_3", k!"/data/t/s1", k!"/data/t/s2"]
     | _, _ => false) = true := by decide +kernel
+
+-- disabled audit row: skipped and not in the meta block; count cells: `${n}` has no companion, `${n} + 1` has one
+example : (match classify [] 2 [(k!"type", k!"audit"), (k!"disabled", k!"yes")] with
+      | .row .skip => true | _ => false) = true ∧
+    isAuditRow [(k!"type", k!"audit"), (k!"disabled", k!"yes")] = false ∧
+    isAuditRow [(k!"type", k!"audit"), (k!"disabled", k!"no")] = true := by decide +kernel
+example : (countHelper (k!"r") [(k!"control::jr:count", k!"${n}")]).isSome = false ∧
+    (countHelper (k!"r") [(k!"control::jr:count", k!"${n} + 1")]).isSome = true ∧
+    (countHelper (k!"r") [(k!"control::jr:count", k!"${n} * ${m}")]).isSome = true ∧
+    (countHelper (k!"r") [(k!"control::jr:count", k!"3")]).isSome = true := by decide +kernel
 
 end Pyxv.C04
